@@ -87,6 +87,13 @@ def run(ctx):
     years += ['1' * n + 'a' for n in (31, 32, 33, 64, 200)] + ['-' * n for n in (31, 32, 33, 64)]
     fails += ctx.prop('prop:year-range', years, p_year)
     texts = [t for _, t in docs]
+    # the file route: texts that end in every way a file ends, and large ones with a line end on every block boundary
+    import os
+    fpath = os.path.join(ctx.scratch, 'copyright')
+    small = [t for t in texts[:ctx.n(600, 6000)] if t.strip()]
+    small += [t.rstrip('\n') for t in small[:200]] + [t.rstrip() + 'z' for t in small[:100]] + [t.replace('\n', '\r\n') for t in small[:100]]
+    ff = ctx.prop('prop:file-route', [(fpath, t) for t in small + _copy.large_copyright_texts(rng, ctx.quick())], _copy.p_routes_agree)
+    fails += [(f[0][1], f[1]) for f in ff]
     fails += ctx.prop('prop:observing-changes-nothing', texts[:ctx.n(700, 8000)], _copy.p_observe)
     mutated = [G.corrupt_doc(rng, t) for t in texts[:ctx.n(2500, 30000)]]
     bad = ctx.compare('corr:copyright', [('copyright_from_text', [t]) for t in texts + mutated], _copy.impl)
